@@ -49,6 +49,7 @@ def gen(rng, facts):
         elif r < 0.8: c.exit(rng.randrange(nt))
         elif r < 0.84: c.tick(rng.choice([1, 1000, 1001]))
         else: c.poll()
+    c.mark_tail()
     for _ in range(4):
         for t in range(nt): c.resume(t)
         c.tick(2000)
